@@ -152,8 +152,13 @@ class Operand(ABC):
         if old_value.is_explicit_direct() and not self.value.is_numeric():
             return DirectOperand(self.operand_string, self.instruction, value=self.value)
 
+        # A negative value is a 16-bit two's complement address unless direct mode was asked for
+        if self.value.is_numeric() and self.value.is_negative() and not old_value.is_explicit_direct():
+            return ExtendedOperand(self.operand_string, self.instruction, value=self.value)
+
         if self.value.is_numeric() and (self.value.is_direct() or old_value.is_explicit_direct()):
-            return DirectOperand(self.operand_string, self.instruction, DirectNumericValue(self.value.int))
+            signed_value = -self.value.int if self.value.is_negative() else self.value.int
+            return DirectOperand(self.operand_string, self.instruction, DirectNumericValue(signed_value))
 
         return ExtendedOperand(self.operand_string, self.instruction, value=self.value)
 
